@@ -30,7 +30,7 @@ def output_writer(kernel, proc):
     out = proc.env.get("COND_OUT")
     if out and os.path.isdir(out):
         with open(os.path.join(out, "result.txt"), "w") as fh:
-            fh.write("by %s pid %d\n" % (proc.name, proc.pid))
+            fh.write("by %s pid %d\n" % (proc.name, proc.vpid))
 
 
 def monitor(g, specs, root, res, sched):
@@ -58,7 +58,7 @@ def monitor(g, specs, root, res, sched):
                 for st in starts:
                     g.require(pd.t_exit is not None and pd.t_exit < st, "order:dependent-started-before-dependency-finished",
                               "%s started at t=%s but its dependency %s (pid %d) ran [%s,%s]; %s" % (
-                                  specs[t].ident, st, specs[d].ident, pd.pid, pd.t_spawn, pd.t_exit, graphs.describe(specs)))
+                                  specs[t].ident, st, specs[d].ident, pd.vpid, pd.t_spawn, pd.t_exit, graphs.describe(specs)))
                     g.require(sched.ok(pd.pid), "order:dependent-started-after-failed-dependency",
                               "%s started although its dependency %s exited with %s; %s" % (
                                   specs[t].ident, specs[d].ident, pd.status, graphs.describe(specs)))
@@ -74,7 +74,7 @@ def monitor(g, specs, root, res, sched):
                 for pt in iv[t]:
                     g.require(not (pd.t_spawn > pt.t_spawn), "order:dependency-executed-after-dependent",
                               "%s (pid %d) started at %s, after its dependent %s started at %s; %s" % (
-                                  specs[d].ident, pd.pid, pd.t_spawn, specs[t].ident, pt.t_spawn, graphs.describe(specs)))
+                                  specs[d].ident, pd.vpid, pd.t_spawn, specs[t].ident, pt.t_spawn, graphs.describe(specs)))
     if any(len(v) > 1 for v in iv.values()):
         g.goal("never")  # duplicates are C02's subject; reaching here is fine
     return nontrivial
